@@ -288,6 +288,9 @@ def ack_fields(ctx):
     # a datagram overtaken by exactly L others, for every L across the window boundary, then a replay of everything
     J.lateness_sweep(ctx, "C08", list(range(28, 37)) if q else list(range(1, 45)))
     J.ack_lateness_sweep(ctx, "C08", list(range(28, 37)) if q else list(range(1, 45)))
+    # the message window (256) is wider than the datagram window (32): nine messages per datagram put a datagram that is L <= 31 datagrams late up to 279 messages
+    # late while it is still inside the datagram window - every such message is new and must be delivered, its copy afterwards must not
+    J.lateness_sweep(ctx, "C08", [3, 4, 7, 15, 27, 28, 29, 31] if q else list(range(1, 32)), starts=(None, 65500), per_tick=9)
     J.run_scenarios(ctx, "C08", [
         dict(name="ack-fields-lossy", n=3 if q else 24, nticks=700 if q else 2500, heal_after=500 if q else 2000,
              policy=dict(p_loss=0.25, p_dup=0.1, maxdelay=20, lens=[4, 20, 100, 600], retries=(0, 1, -1)), world=dict(start_seq="alt")),
